@@ -46,12 +46,12 @@ Diagnose(h, dst, sh, hops) ==
 TrAt ==
   /\ IsEvent("At") /\ Ev.wf
   /\ at' = [h \in Hosts |-> <<Ev.args.at[h][1], Ev.args.at[h][2]>>]
-  /\ UNCHANGED <<seen, flows, bufs>> /\ Quiet
+  /\ UNCHANGED <<seen, ctl, flows, bufs>> /\ Quiet
 
 TrMove ==
   /\ IsEvent("Move")
   /\ at' = [at EXCEPT ![Ev.args.h] = <<Ev.args.s, Ev.args.p>>]
-  /\ UNCHANGED <<seen, flows, bufs>> /\ Quiet
+  /\ UNCHANGED <<seen, ctl, flows, bufs>> /\ Quiet
 
 TrSend ==
   /\ IsEvent("Send")
